@@ -283,6 +283,8 @@ def iterdicts(dicts, header, sample, missing):
         # discover fields
         header = list()
         peek, it = iterpeek(it, sample)
+        if isinstance(peek, dict):
+            peek = [peek]  # iterpeek hands back the item itself if sample is 1
         for o in peek:
             if hasattr(o, 'keys'):
                 header += [k for k in o.keys() if k not in header]
